@@ -113,6 +113,18 @@ Theorem C14_source_load_base_structures_is_model :
              (load_bases (f_one fo) (f_sub fo) (f_div fo) (f_iszero fo) isalpha true skip ls).
 Proof. exact load_base_structures_eq. Qed.
 
+(* ... and a grammar.txt with a line that does not parse (fewer than two fields, or a second field
+   float() rejects) makes the translated loader return False, for both values of skip_brute and any
+   fuel: together with the theorem above this covers every file *)
+Theorem C14_source_unparsable_file_fails :
+  forall (fo : fops) (ws isalpha : N -> bool) (pfloat : pstr -> option (F fo))
+         (bopen : pstr -> option (list pstr)) (pjoin : list pstr -> pstr)
+         (fuel : nat) (dir folder : pstr) (skip : bool) (lines : list pstr),
+  bopen (pjoin [dir; folder; grammar_txt]) = Some lines ->
+  parse_all fo ws pfloat lines = None ->
+  exists bs, py_load_base_structures fo ws isalpha pfloat bopen pjoin fuel [] dir skip folder = Done (bs, false).
+Proof. exact load_base_structures_unparsable. Qed.
+
 (* the fuel of the generated `while` (no counterpart in Python) is never exhausted *)
 Theorem C14_source_never_out_of_fuel :
   forall (fo : fops) (ws isalpha : N -> bool) (pfloat : pstr -> option (F fo))
